@@ -113,13 +113,19 @@ def lake_build(clean: bool = False) -> float:
     return time.time() - t0
 
 
+def property_files(pid: str) -> list[Path]:
+    """Props/Cxx.lean and its continuation files Props/Cxx_*.lean."""
+    d = LEAN / "AsphaltProofs" / "Props"
+    return [f for f in [d / f"{pid}.lean", *sorted(d.glob(f"{pid}_*.lean"))] if f.exists()]
+
+
 def property_theorems(pid: str) -> list[str]:
-    """Names of the property theorems of `pid`: every `theorem Cxx_…` in Props/Cxx.lean."""
-    f = LEAN / "AsphaltProofs" / "Props" / f"{pid}.lean"
-    if not f.exists():
-        return []
-    text = _strip_comments(f.read_text())
-    return re.findall(rf"^\s*theorem\s+({pid}_\w+)", text, flags=re.M)
+    """Names of the property theorems of `pid`: every `theorem Cxx_…` in its Props files."""
+    names: list[str] = []
+    for f in property_files(pid):
+        text = _strip_comments(f.read_text())
+        names += re.findall(rf"^\s*theorem\s+({pid}_\w+)", text, flags=re.M)
+    return names
 
 
 def axiom_audit(pid: str) -> dict[str, list[str]]:
@@ -127,7 +133,7 @@ def axiom_audit(pid: str) -> dict[str, list[str]]:
     names = property_theorems(pid)
     if not names:
         raise Infra(f"no property theorems found for {pid}")
-    src = f"import AsphaltProofs.Props.{pid}\nopen Asphalt\n" + "".join(
+    src = "".join(f"import AsphaltProofs.Props.{f.stem}\n" for f in property_files(pid)) + "open Asphalt\n" + "".join(
         f"#print axioms {n}\n" for n in names
     )
     with tempfile.TemporaryDirectory(prefix="verif-audit-") as td:
@@ -151,7 +157,7 @@ def axiom_audit(pid: str) -> dict[str, list[str]]:
 
 
 def leanchecker(pid: str) -> str:
-    mods = ["AsphaltModel", f"AsphaltProofs.Props.{pid}"]
+    mods = ["AsphaltModel"] + [f"AsphaltProofs.Props.{f.stem}" for f in property_files(pid)]
     res = _run(["lake", "env", "leanchecker", *mods], LEAN, 3600)
     if res.returncode != 0:
         raise Infra(f"leanchecker failed: {(res.stdout + res.stderr)[-2000:]}")
